@@ -34,11 +34,7 @@ pub fn get() -> FunctionDefinitions {
                                 Some(vec.into())
                             }
                             Some(JsonValue::String(str)) => {
-                                let str = if size > str.len() {
-                                    str
-                                } else {
-                                    str[..size].into()
-                                };
+                                let str: String = str.chars().take(size).collect();
                                 Some(str.into())
                             }
                             _ => None,
